@@ -1,3 +1,5 @@
+//go:build !passthrough
+
 // Package simsync is an API-compatible replacement of package sync whose
 // blocking is owned by the simrt scheduler. In -race builds it publishes to the
 // race detector exactly the happens-before edges the real primitives would.
